@@ -242,6 +242,12 @@ def rule_framemap(ctx):
     f = ctx.program.func("hierarchy._lca", R)
     s = ctx.S.get(f.qual)
     outer = [it for lid, (node, it) in sorted(s.loops.items()) if it.op == "call" and call_name(it) == "builtins.enumerate"]
+    if not outer:
+        plain = [it for lid, (node, it) in sorted(s.loops.items()) if it is ih]
+        stores = [m for m in s.by_kind("mutate") if m.how in ("aug", "setitem") and m.key is not None and m.key.op == "tuple"]
+        if plain and stores:
+            yield ob(R, f, "hierarchy._lca:level-order", False, "levels are no longer numbered by their position in the caller's list (the depth written is %s, %s): for non-nested hierarchies an accumulated count differs from the deepest level that keeps two frames together" % (tm.show(stores[0].val, 2) if stores[0].val is not None else "?", stores[0].how), node=stores[0].node)
+            return
     need(len(outer) == 1, R, "_lca: level loop not found")
     it = outer[0]
     good = len(it.a[1]) == 2 and it.a[1][0] is ih and tm.is_const(it.a[1][1], 1)
